@@ -195,6 +195,36 @@ func buildCatalogue() []item {
 	// self-issued but not self-signed: the CA carries the same name as the CA
 	// that certified it (another key)
 	add("ca-named-like-its-issuer", true, midOnly, func(d *desc, pos int) { d.specs[pos].CN = d.specs[pos+1].CN })
+	// names that print alike and are not alike: the last certificate is signed
+	// by its own key but its issuer field is another Name (same attributes in
+	// another order / grouped into one RDN / written with another string type)
+	for _, v := range []string{"reordered", "grouped", "other-string-type"} {
+		v := v
+		add("last-certificate-issuer-name-"+v, false, func(pos, n int, ts bool) bool { return pos == n-1 }, func(d *desc, pos int) {
+			cn := d.specs[pos].CN
+			o, c := pki.ATV{OID: pki.OIDO, Value: "chains-org"}, pki.ATV{OID: pki.OIDCN, Value: cn}
+			d.specs[pos].SubjectDER = pki.NameDER([]pki.ATV{o}, []pki.ATV{c})
+			switch v {
+			case "reordered":
+				d.specs[pos].IssuerDER = pki.NameDER([]pki.ATV{c}, []pki.ATV{o})
+			case "grouped":
+				d.specs[pos].IssuerDER = pki.NameDER([]pki.ATV{o, c})
+			default:
+				c.Tag = 19
+				d.specs[pos].IssuerDER = pki.NameDER([]pki.ATV{o}, []pki.ATV{c})
+			}
+		})
+	}
+	// the same two-attribute name on subject and issuer side: an ordinary root
+	add("last-certificate-two-attribute-name", true, func(pos, n int, ts bool) bool { return pos == n-1 }, func(d *desc, pos int) {
+		nm := pki.NameDER([]pki.ATV{{OID: pki.OIDO, Value: "chains-org"}}, []pki.ATV{{OID: pki.OIDCN, Value: d.specs[pos].CN}})
+		d.specs[pos].SubjectDER, d.specs[pos].IssuerDER = nm, nm
+	})
+	// a certificate that names its issuer with the right attributes written as
+	// another string type
+	add("issuer-name-other-string-type", false, notRoot, func(d *desc, pos int) {
+		d.specs[pos].IssuerDER = pki.NameDER([]pki.ATV{{OID: pki.OIDCN, Value: d.specs[pos+1].CN, Tag: 19}})
+	})
 	add("single-cert-not-self-signed", false, func(pos, n int, ts bool) bool { return n == 1 }, func(d *desc, pos int) {
 		n := "some-issuer"
 		d.specs[0].IssuerCN = &n
@@ -222,6 +252,22 @@ func buildCatalogue() []item {
 		e := e
 		add("leaf-eku-"+e.n, false, csLeaf, func(d *desc, pos int) { d.specs[0].EKU = []x509.ExtKeyUsage{x509.ExtKeyUsageCodeSigning, e.e} })
 		add("leaf-eku-only-"+e.n, false, csLeaf, func(d *desc, pos int) { d.specs[0].EKU = []x509.ExtKeyUsage{e.e} })
+	}
+	// anyExtendedKeyUsage next to an excluded purpose, in every order
+	for _, e := range []struct {
+		n string
+		e x509.ExtKeyUsage
+	}{{"serverauth", x509.ExtKeyUsageServerAuth}, {"clientauth", x509.ExtKeyUsageClientAuth}, {"emailprotection", x509.ExtKeyUsageEmailProtection}, {"timestamping", x509.ExtKeyUsageTimeStamping}, {"ocspsigning", x509.ExtKeyUsageOCSPSigning}} {
+		e := e
+		add("leaf-eku-any-then-"+e.n, false, csLeaf, func(d *desc, pos int) { d.specs[0].EKU = []x509.ExtKeyUsage{x509.ExtKeyUsageAny, e.e} })
+		add("leaf-eku-"+e.n+"-then-any", false, csLeaf, func(d *desc, pos int) { d.specs[0].EKU = []x509.ExtKeyUsage{e.e, x509.ExtKeyUsageAny} })
+		add("leaf-eku-codesigning-any-"+e.n, false, csLeaf, func(d *desc, pos int) {
+			d.specs[0].EKU = []x509.ExtKeyUsage{x509.ExtKeyUsageCodeSigning, x509.ExtKeyUsageAny, e.e}
+		})
+		add("leaf-eku-unknown-then-"+e.n, false, csLeaf, func(d *desc, pos int) {
+			d.specs[0].EKU = nil
+			d.specs[0].EKURaw = []asn1.ObjectIdentifier{pki.OIDUnknownEKU, pki.EKUOID(e.e)}
+		})
 	}
 	for _, k := range []string{"rsa1024", "rsa1536", "rsa2560", "rsa3584", "p224", "ed25519"} {
 		k := k
